@@ -33,6 +33,7 @@ type adapter struct {
 	faults  []Fault
 	closed  bool
 	calls   int
+	crashAt int  // simulate process death when this many adapter calls have been made (0 = never)
 }
 
 func newAdapter(id int, prio bool, faults []Fault) *adapter {
@@ -51,6 +52,27 @@ func (a *adapter) fault(op string, nth int) bool {
 func (a *adapter) log(op, arg, res string) {
 	a.calls++
 	rt.Log("A", fmt.Sprint(a.id), op+" "+arg+" "+res)
+	if a.crashAt > 0 && a.calls == a.crashAt {
+		rt.Abort()
+	}
+}
+
+// recover returns unacknowledged deliveries to the pending list (in their original order) and forgets
+// subscribers: the state a fresh process finds.
+func (a *adapter) recover() {
+	var back []entry
+	for _, id := range a.order {
+		if e, ok := a.unacked[id]; ok {
+			back = append(back, e)
+		}
+	}
+	sort.SliceStable(back, func(i, j int) bool { return back[i].seq < back[j].seq })
+	a.pending = append(back, a.pending...)
+	a.unacked = map[string]entry{}
+	a.order = nil
+	a.subs = nil
+	a.crashAt = 0
+	a.faults = nil
 }
 
 func payloadOf(b []byte) string {
